@@ -7,8 +7,11 @@ converter's own `_activate_plugin_worlds()`; fallback `spec.make_value(orig)`), 
 inspect.signature and lets Coq evaluate the proved procedure on every pair.
 Ties: every counterexample is replayed on the real objects (Signature.bind on the original succeeds, on
 the substitute raises TypeError, and an actual call of the substitute raises TypeError at the call
-boundary); the model `binds` is compared three-way with Signature.bind and with real calls of
-`def`-functions of the same shape on random call forms.  Confirmed rejections are defects of the tree."""
+boundary); the model `binds` is compared with real calls of `def`-functions of the same shape and with
+Signature.bind on random call forms.  Confirmed rejections are defects of the tree (key `sig <callable>`).
+Second half of the property (no argument silently ignored): no theorem; explored by single-call programs that
+pass one optional argument with a non-default value, by keyword and positionally, through to_onnx +
+onnxruntime and compare with JAX (key `arg <callable>.<parameter>`)."""
 import inspect
 import json
 import keyword
@@ -150,6 +153,9 @@ def enumerate_patches():
             entries.append(e)
         stats["mode"] = mode
         stats["patched_attributes"] = len(entries)
+        # observation only (restoration of patches is another property's subject)
+        stats["left_patched_after_activation"] = [e["key"][4:] for e in entries
+                                                  if mode == "activated-world" and _raw(e["target"], e["attr"]) is not e["orig"]]
         return entries, stats
     finally:
         logging.disable(logging.NOTSET)
@@ -241,7 +247,7 @@ def coq_decide(ctx, pairs):
     """pairs: list of (w, o) param tuples -> per pair the list of counterexample call forms [(npos, (kw...))]
     ([] = subsumes; first element = subsumes_witness); also wf check of every signature"""
     res = []
-    CH = 60
+    CH = 150
     for off in range(0, len(pairs), CH):
         chunk = pairs[off:off + CH]
         txt = HEADER
@@ -599,16 +605,26 @@ def _same(a, b):
     return True, ""
 
 
+class _ModelInvalid(Exception):
+    """the converter returned a model that onnxruntime cannot load or run"""
+
+
+EXPLICIT = re.compile(r"not supported|unsupported|not implemented|not yet|only supports|cannot be exported|is not available", re.I)
+
+
 def _export_run(fn, arrays):
     import jax
     import onnxruntime as ort
     from jax2onnx import to_onnx
     model = to_onnx(fn, [jax.ShapeDtypeStruct(a.shape, a.dtype) for a in arrays])
-    so = ort.SessionOptions()
-    so.log_severity_level = 3
-    sess = ort.InferenceSession(model.SerializeToString(), so, providers=["CPUExecutionProvider"])
-    feeds = {i.name: a for i, a in zip(sess.get_inputs(), arrays)}
-    return sess.run(None, feeds)
+    try:
+        so = ort.SessionOptions()
+        so.log_severity_level = 3
+        sess = ort.InferenceSession(model.SerializeToString(), so, providers=["CPUExecutionProvider"])
+        feeds = {i.name: a for i, a in zip(sess.get_inputs(), arrays)}
+        return sess.run(None, feeds)
+    except BaseException as exc:
+        raise _ModelInvalid(f"{type(exc).__name__}: {str(exc)[:160]}")
 
 
 EXPLORE_SKIP_MODULES = ("jax.random", "jax.lax", "jax.image", "jax.numpy.linalg", "dm_pix", "jax2onnx", "jax.nn.initializers")
@@ -625,7 +641,11 @@ def _explorable(e):
             any(p.kind is p.VAR_POSITIONAL for p in so.parameters.values()) or \
             any(p.default is p.empty and p.kind is p.KEYWORD_ONLY for p in so.parameters.values()):
         return None
-    return getattr(e["target"], e["attr"]), req, opts
+    tgt, attr = e["target"], e["attr"]
+
+    def f(*a, **k):            # looked up at call time, as user code does: the original eagerly, the substitute while tracing
+        return getattr(tgt, attr)(*a, **k)
+    return f, req, opts
 
 
 def _crossing(e):
@@ -640,13 +660,19 @@ def _crossing(e):
 
 
 def _probe_argument(f, arrays, base, name, v, before=None):
-    """-> (status, detail): 'invalid' (JAX rejects it), 'no-effect', 'rejected' (export raises), 'same', 'DIFFERENT'.
+    """-> (status, detail): 'invalid' (JAX rejects it), 'no-effect', 'rejected' (explicit unsupported-feature error at export),
+    'model-invalid' (export succeeds, onnxruntime refuses the model: counted, other properties), 'same',
+    'FAILS' (export raises something that is not an unsupported-feature error), 'DIFFERENT'.
     before=None: pass name=v by keyword; otherwise pass positionally after the default values `before` of the
     optional parameters that precede it (which means the same as omitting them)"""
+    as_input = hasattr(v, "shape") and hasattr(v, "dtype")     # an array value is a graph input like the required arrays
+    k_ = len(arrays)
+    if as_input:
+        arrays = list(arrays) + [v]
     if before is None:
-        call = (lambda *xs, _f=f, _k=name, _v=v: _f(*xs, **{_k: _v}))
+        call = (lambda *xs, _f=f, _k=name, _v=v: _f(*xs[:k_], **{_k: (xs[k_] if as_input else _v)}))
     else:
-        call = (lambda *xs, _f=f, _b=tuple(before), _v=v: _f(*xs, *_b, _v))
+        call = (lambda *xs, _f=f, _b=tuple(before), _v=v: _f(*xs[:k_], *_b, (xs[k_] if as_input else _v)))
     try:
         want = _flat(call(*arrays))
     except BaseException:
@@ -655,8 +681,13 @@ def _probe_argument(f, arrays, base, name, v, before=None):
         return "no-effect", ""
     try:
         got = _flat(_export_run(call, arrays))
+    except _ModelInvalid as exc:
+        return "model-invalid", str(exc)
     except BaseException as exc:
-        return "rejected", f"{type(exc).__name__}: {str(exc)[:200]}"
+        msg = f"{type(exc).__name__}: {str(exc)[:200]}"
+        if isinstance(exc, NotImplementedError) or EXPLICIT.search(str(exc)):
+            return "rejected", msg
+        return "FAILS", msg
     ok, how = _same(got, want)
     if ok:
         return "same", ""
@@ -664,7 +695,7 @@ def _probe_argument(f, arrays, base, name, v, before=None):
 
 
 def _value_text(v):
-    return getattr(v, "__name__", None) or (f"<alternating bool mask {tuple(v.shape)}>" if hasattr(v, "shape") else repr(v))
+    return getattr(v, "__name__", None) or (f"<{v.dtype} array {tuple(v.shape)}>" if hasattr(v, "shape") else repr(v))
 
 
 def explore_arguments(ctx, usable, all_profiles=False, budget_s=600, only=None):
@@ -673,7 +704,7 @@ def explore_arguments(ctx, usable, all_profiles=False, budget_s=600, only=None):
     out = {"functions_tried": 0, "functions_with_a_valid_plain_call": 0, "plain_call_export_differs_or_fails": [],
            "parameter_values_tried": 0, "jax_rejects_value": 0, "value_without_effect_on_inputs": 0,
            "rejected_at_export": 0, "same_result": 0, "differences": [], "budget_exhausted": False,
-           "rejections": []}
+           "rejections": [], "exported_model_refused_by_onnxruntime": []}
     out["positional_crossings_hint"] = [dict(_crossing(e), callable=e["key"][4:]) for e in usable if _crossing(e)]
     logging.disable(logging.CRITICAL)
     try:
@@ -736,10 +767,16 @@ def explore_arguments(ctx, usable, all_profiles=False, budget_s=600, only=None):
                                 out["value_without_effect_on_inputs"] += 1
                             elif status == "rejected":
                                 out["rejected_at_export"] += 1
-                                if len(out["rejections"]) < 10:
+                                if len(out["rejections"]) < 200:
                                     out["rejections"].append(f"{e['key'][4:]}({p.name}={_value_text(v)}, {how_passed}): {detail[:120]}")
+                            elif status == "model-invalid":
+                                out["exported_model_refused_by_onnxruntime"].append(f"{e['key'][4:]}({p.name}={_value_text(v)}, {how_passed}): {detail[:120]}")
                             elif status == "same":
                                 out["same_result"] += 1
+                            elif status == "FAILS":
+                                out["differences"].append({"key": f"arg {e['key'][4:]}.{p.name}", "callable": e["key"][4:],
+                                                           "parameter": p.name, "passed": how_passed, "value": _value_text(v),
+                                                           "inputs": pname, "how": "export fails with " + detail, "fails": True})
                             else:
                                 out["differences"].append({"key": f"arg {e['key'][4:]}.{p.name}", "callable": e["key"][4:],
                                                            "parameter": p.name, "passed": how_passed, "value": _value_text(v),
@@ -764,19 +801,30 @@ def run(ctx):
     ctx.assumptions = [
         "Only binding is covered by proof (a valid call never fails merely because the substitute binds arguments differently).  "
         "That an accepted argument is lowered with the same meaning or rejected explicitly (no argument silently ignored) has NO "
-        "theorem: it is explored only, for jax.numpy / jax.nn functions whose required parameters are arrays, by passing each "
-        "optional parameter both signatures accept with one or two non-default values through to_onnx + onnxruntime and comparing "
-        "with JAX (coverage.exploration_no_argument_silently_ignored).  Module methods, functions needing non-array arguments, "
-        "positional passing of optional parameters and other values are not explored.",
+        "theorem: it is explored only, for module-level functions (jax.numpy, jax.nn, flax.linen, flax.nnx) whose required "
+        "parameters are arrays, by passing each optional parameter, by keyword and positionally where both signatures bind it, with "
+        "one or two non-default values through to_onnx + onnxruntime and comparing with JAX "
+        "(coverage.exploration_no_argument_silently_ignored).  A difference is reported only when the same call without the argument "
+        "exports correctly.  Module methods, functions needing non-array arguments, combinations of arguments and other values are "
+        "not explored.",
         "Argument values play no role in binding; call forms with *iterable / **mapping unpacking reduce to the (count, names) "
         "form after unpacking.",
         "A substitute that forwards ( *args, **kwargs ) binds every call; whether the code behind it accepts the arguments is "
         "outside this check.",
         "For patched attributes of classes the call is taken through an instance (first parameter bound), as users call modules.",
     ]
+    import time
+    phase, t_ = {}, time.time()
+
+    def lap(name):
+        nonlocal t_
+        phase[name] = round(time.time() - t_, 1)
+        t_ = time.time()
     common.build_props(ctx, "C19", [])
+    lap("coq_build")
 
     entries, stats = enumerate_patches()
+    lap("enumerate")
     ok_enum = ctx.oblige(f"enumerate:patched-callables({stats.get('patched_attributes', 0)} attributes from "
                          f"{stats['monkey_patch_specs']} MonkeyPatchSpec + {stats['function_plugin_patches']} function-plugin patches; "
                          f"substitutes via {stats['mode']})",
@@ -794,6 +842,7 @@ def run(ctx):
         return ctx
     ctx.oblige(f"coq:evaluate-sig_subsumes-on-real-pairs({len(pair_list)} distinct signature pairs, all well-formed)", True, "tie")
     verdict = dict(zip(pair_list, results))
+    lap("coq_decide")
 
     # ---- replay every counterexample on the real objects; report the most natural confirmed one per callable
     n_wit_pairs = n_wit_total = n_conf = 0
@@ -863,6 +912,7 @@ def run(ctx):
     ctx.oblige(f"tie:counterexamples-replay-on-CPython({n_wit_total} call forms over {n_wit_pairs} callables)", not model_mismatch, "tie",
                "" if not model_mismatch else f"Coq counterexample does not behave as computed under CPython binding: {model_mismatch[:5]}")
 
+    lap("replay_counterexamples")
     # ---- positive direction, empirically: where Coq says `subsumes`, random calls the original accepts bind on the substitute
     rng = ctx.rng
     pos_checked = pos_bad = 0
@@ -880,24 +930,31 @@ def run(ctx):
     ctx.oblige(f"tie:subsuming-pairs-accept-sampled-calls({pos_checked} calls accepted by an original)", pos_bad == 0, "tie",
                "" if pos_bad == 0 else f"{pos_bad} sampled calls bind on the original, not on a substitute Coq judged subsuming")
 
+    lap("sampled_positive")
     # ---- model vs CPython on random call forms
     real_sigs = sorted({s for pr in pair_list for s in pr})
     n_real, n_synth = (300, 200) if ctx.tier == "quick" else (3000, 2000)
     cases, expected = correspondence(ctx, real_sigs, n_real, n_synth) if real_sigs else ([], [])
 
+    lap("correspondence")
     # ---- second half of the property: exploration, no theorem
     try:
-        expl = explore_arguments(ctx, usable, all_profiles=(ctx.tier != "quick"), budget_s=60 if ctx.tier == "quick" else 900)
+        expl = explore_arguments(ctx, usable, all_profiles=(ctx.tier != "quick"), budget_s=45 if ctx.tier == "quick" else 900)
     except Exception as exc:                       # the exploration must never break the proved part
         expl = {"error": f"{type(exc).__name__}: {exc}", "differences": []}
+    lap("exploration")
     seen_arg = set()
     for d in expl["differences"]:
         if d["key"] in seen_arg:
             continue
         seen_arg.add(d["key"])
         form = f"{d['parameter']}={d['value']}" if d["passed"] == "keyword" else f"..., {d['value']} as positional argument `{d['parameter']}`"
-        what = (f"{d['callable']}(<arrays {d['inputs']}>, {form}): JAX computes one result, the exported model another ({d['how']}), "
-                f"although the same call without that argument exports correctly")
+        if d.get("fails"):
+            what = (f"{d['callable']}(<arrays {d['inputs']}>, {form}) is a valid JAX call, but its {d['how']} (not an unsupported-feature "
+                    f"error), although the same call without that argument exports correctly")
+        else:
+            what = (f"{d['callable']}(<arrays {d['inputs']}>, {form}): JAX computes one result, the exported model another ({d['how']}), "
+                    f"although the same call without that argument exports correctly")
         ctx.violate(d["key"], what, {"kind": "argument", "sig_key": "sig " + d["callable"], "parameter": d["parameter"],
                                      "passed": d["passed"], "value": d["value"], "inputs": d["inputs"]})
         known_entries.append({"property": "C19", "key": d["key"], "status": "known", "what": what})
@@ -910,7 +967,7 @@ def run(ctx):
 
     differing = [pr for pr in pair_list if pr[0] != pr[1]]
     ctx.coverage.update({
-        "evaluations": len(usable) + len(cases) + pos_checked,
+        "evaluations": len(usable) + len(cases) + pos_checked + n_wit_total + int(expl.get("parameter_values_tried", 0)),
         "distinct_nontrivial": len(differing),
         "rule": "every attribute the plugin registry replaces by a callable while tracing (leaf-plugin MonkeyPatchSpec/AssignSpec and "
                 "function-plugin patches), original vs installed substitute, decided for ALL call forms by the proved procedure; "
@@ -931,6 +988,7 @@ def run(ctx):
                               "binding": int(sum(expected)), "not_binding": len(expected) - int(sum(expected))},
         "sampled_accepting_calls_on_subsuming_pairs": pos_checked,
         "exploration_no_argument_silently_ignored": expl,
+        "phase_seconds": phase,
     })
     ctx.samples = samples + [{"callable": e["key"][4:], "verdict": "subsumes", "original": str(e["orig_sigs"][0]),
                               "substitute": str(e["sub_sig"])} for e in usable if not verdict[(e["w"], e["o"])]][:4]
